@@ -92,6 +92,38 @@ def gen_async_world(rng, nfuncs=4, max_depth=3):
     lines = ["package t:t;", "interface i {"] + ["  " + d for _, d in g.defs] + funcs + ["}", "world w { import i; export i; }"]
     return "\n".join(lines) + "\n", g.stats
 
+# versions a package may carry: plain, pre-release, build metadata, both (semver grammar)
+PRE = ["rc.1", "alpha-2", "0.3.7", "beta", "x-y-z", "rc.1.2"]
+BUILD = ["build.5", "a-b", "exp.sha-5114f85", "001"]
+
+def gen_version(rng, major):
+    v = f"{major}.{rng.choice([0, 1, 2, 10])}.{rng.choice([0, 3, 7])}"
+    r = rng.random()
+    if r < 0.25: return v
+    if r < 0.55: return v + "-" + rng.choice(PRE)
+    if r < 0.75: return v + "+" + rng.choice(BUILD)
+    return v + "-" + rng.choice(PRE) + "+" + rng.choice(BUILD)
+
+def gen_multiversion_world(rng, nver=None):
+    """several versions of package `my:dep` (different major numbers, so that the component encoder's
+    semver merging leaves them apart), each with an interface `a` (types, a resource, functions) and
+    possibly `b-c`; the world imports every version and exports one or two of them"""
+    nver = nver or rng.choice([2, 2, 3])
+    majors = rng.sample([0, 1, 2, 3, 7], nver)
+    vers = [gen_version(rng, m) for m in majors]
+    g = witgen.Gen(rng, max_depth=2, features={"map"})
+    pkgs = []
+    for k, v in enumerate(vers):
+        t1 = g.ty(1, False); t2 = g.ty(1, False)
+        defs = "".join("    " + d + "\n" for _, d in g.defs); g.defs = []
+        pkgs.append(f"package my:dep@{v} {{\n  interface a {{\n{defs}    record point {{ x: u32, y: {t1} }}\n"
+                    f"    resource r {{ constructor(p: point); get: func() -> point; s: static func(a: u8) -> r; }}\n"
+                    f"    get: func(p: point, q: {t2}) -> list<point>;\n    mk: func() -> r;\n    take: func(x: borrow<r>) -> option<{t1}>;\n  }}\n"
+                    f"  interface b-c {{ use a.{{point}}; f: func(p: point) -> result<point, string>; }}\n}}\n")
+    imports = "".join(f" import my:dep/a@{v}; import my:dep/b-c@{v};" for v in vers)
+    exports = "".join(f" export my:dep/a@{v};" for v in rng.sample(vers, rng.choice([1, 2])))
+    return "package t:t;\n" + "".join(pkgs) + f"world w {{{imports}{exports} }}\n", vers
+
 # ---------------------------------------------------------------------------------------------
 # values over detailed type terms
 
